@@ -117,6 +117,17 @@ class Feed:
         self.late_lines = [(x + '\n').encode() for x in e4lib.mkfeed(late)]
         self.late_bytes = b''.join(self.late_lines)
         self.table_late = e4lib.feed2table(self.bytes + self.late_bytes, LAT0, LON0)
+        # very small feeds: the counters must be right from the first aircraft on (Most = 1 with a single aircraft)
+        self.small = {}
+        for nsm in (1, 2, 3):
+            sp = []
+            for i in range(nsm):
+                ic = 'c%05x' % (0x400 + i)
+                sp.append({'kind': 'ident', 'icao': ic, 'callsign': 'SM%d' % i})
+                sp.append({'kind': 'pos', 'icao': ic, 'lat': LAT0 + 0.6 * D * (i + 1), 'lon': LON0 + D, 'alt': 9000 + 100 * i, 'odd': 0})
+                sp.append({'kind': 'pos', 'icao': ic, 'lat': LAT0 + 0.6 * D * (i + 1), 'lon': LON0 + D, 'alt': 9000 + 100 * i, 'odd': 1})
+            sl = [(x + '\n').encode() for x in e4lib.mkfeed(sp)]
+            self.small[nsm] = (sl, e4lib.feed2table(b''.join(sl), LAT0, LON0))
         self.locations = ['(%s,%s,%s)' % (n.lower(), round(LAT0 + GEOM[n][0] * D, 4), round(LON0 + GEOM[n][1] * D, 4))
                           for n in ORDER] + ['(rx,%s,%s)' % (LAT0, LON0)]
 
@@ -145,6 +156,11 @@ def compile_script(fd, kind, cfg, seq, delivery, alphabet, filler=True, touchscr
         labels = ORDER
         if kind == 'aircraft-late':
             expect_after = expect_of(fd.table_late)
+    elif kind.startswith('small'):
+        sl, st = fd.small[int(kind[5:])]
+        steps.append({'op': 'lines', 'hex': hexs(b''.join(sl)), 'n': len(sl)})
+        expect = expect_of(st)
+        labels = ['SM%d' % i for i in range(int(kind[5:]))]
     elif kind == 'locations':
         argv += ['--locations'] + fd.locations
         steps.append({'op': 'sync', 'n': 2})
@@ -463,6 +479,12 @@ def enumerate_scripts(tier, fd, fd_mer=None):
                 out.append(compile_script(fd, kind, cfg, seq, 'separated', VIEW, filler=False))
         out.append(compile_script(fd, 'expiry', cfg, (), 'separated', VIEW))
     parts['controls without pacing filler (depth<=1) + expiry variant (Total != Most)'] = len(out) - n0
+    n0 = len(out)
+    for nsm in (1, 2, 3):
+        for seq in [(), ('-',), ('Up',)]:
+            out.append(compile_script(fd, 'small%d' % nsm, cfgs[0], seq, 'separated', VIEW))
+        out.append(compile_script(fd, 'small%d' % nsm, cfgs[-1], (), 'separated', VIEW, filler=False))
+    parts['feeds of 1, 2 and 3 aircraft (counters from the first aircraft on)'] = len(out) - n0
     # traffic arriving after the view controls were used (pan / zoom must not leak into the data)
     n0 = len(out)
     late_depth = 1 if tier == 'quick' else 2
